@@ -322,7 +322,7 @@ func init() {
 				if strings.HasSuffix(target, "-zstd") || (target == "large" && rng.IntN(2) == 0) {
 					name = lib.ResZstd(hash, size)
 				}
-				o := &op{ep: "grpc:ByteStream.Read", mustFail: mf,
+				o := &op{ep: "grpc:ByteStream.Read", mustFail: mf, class: offClass(target),
 					desc: map[string]any{"name": name, "read_offset": off, "read_limit": lim},
 					run: func(ctx context.Context, fx *fixture) result {
 						_, err := fx.srv.BSRead(ctx, name, off, lim)
@@ -372,4 +372,20 @@ func descDigest(d *pb.Digest) any {
 		return nil
 	}
 	return map[string]any{"hash": clip(d.Hash, 140), "size": d.SizeBytes}
+}
+
+// class collapses variants with one root cause into one finding key.
+func (d digestMut) class() string {
+	switch d.name {
+	case "size-negative", "size-negative-absent", "size-minint":
+		return "digest.negative-size"
+	}
+	return ""
+}
+
+func offClass(target string) string {
+	if strings.HasPrefix(target, "empty") {
+		return "offsets.empty-blob.invalid-offset-or-limit"
+	}
+	return ""
 }
